@@ -146,6 +146,10 @@ theorem C12_release_eager (evs : List Ev) (k : Kind) (e : Req)
     (h : (queue k (runState init evs)).head? = some e) : terminal e.state = false :=
   eager_run init evs eager_init k e h
 
+/-- … and eagerness is inductive: preserved by every step from every state that has it. -/
+theorem C12_release_eager_step (c : C) (ev : Ev) (h : Eager c) : Eager (step c ev).1 :=
+  eager_step c ev h
+
 /-- the tables the model takes from the regenerated facts are the protocol's:
 PUBACK, PUBCOMP, SUBACK, UNSUBACK (and PUBREL for the receiving side) end an
 exchange, PUBREC and "nothing yet" do not -/
